@@ -749,3 +749,36 @@ def dec(x: Any) -> str:
     if isinstance(x, dict) and isinstance(x.get("cps"), list):
         return "".join(chr(c) for c in x["cps"] if isinstance(c, int) and 0 <= c <= MAX_CP)
     raise ValueError("not an encoded string")
+
+
+# ---------------------------------------------------------------------------
+# Harness performance: avoid CPython 3.12 data-stack chunk thrashing
+# ---------------------------------------------------------------------------
+
+_ROOMY = None  # type: Any
+
+
+def with_roomy_stack(fn: Any) -> Any:
+    """
+    Call ``fn()`` from inside a frame that owns a ~1 MiB interpreter data-stack chunk.
+
+    CPython 3.12 keeps Python frames in 16 KiB "data stack" chunks which are mmap'ed when a
+    frame does not fit and munmap'ed as soon as that frame returns. The contract-heavy code
+    under test (icontract wrappers around every cursor move) calls tiny functions millions
+    of times at a depth that can sit exactly on a chunk boundary, so that every call maps and
+    unmaps a chunk (measured here: 3 000 munmap per parsed pattern at 0.6 ms each, a 100x
+    slow-down; always the case under atheris' bytecode instrumentation). A frame with 65 000
+    local variables forces one 1 MiB chunk, half of which stays free for the frames of the
+    code under test. This changes nothing but the speed of the harness.
+    """
+    global _ROOMY
+    if _ROOMY is None:
+        ns = {}  # type: Any
+        exec(
+            "def roomy(fn):\n    "
+            + "=".join("v%d" % i for i in range(65000))
+            + "=0\n    return fn()\n",
+            ns,
+        )
+        _ROOMY = ns["roomy"]
+    return _ROOMY(fn)
